@@ -168,11 +168,13 @@ def run (c : Case) : CaseOut := Id.run do
   let mut flushed := false
   let mut cls := "none"
   let mut mops : List Session.Op := []
+  let mut idleTicks : Nat := 0
+  let tsadd := cfgInt c "tsadd" 0
   for (op, implObs) in c.ops do
     match op with
     | "add" :: id :: ts :: rest =>
       let id := (parseNat id).getD 0
-      let ts := if ts == "none" then none else parseInt ts
+      let ts := if ts == "none" then none else (parseInt ts).map (· + tsadd)
       let key := match rest with | kh :: _ => (unhex kh).getD [] | [] => []
       match ts with
       | some t =>
@@ -211,6 +213,27 @@ def run (c : Case) : CaseOut := Id.run do
     | ["tick"] =>
       w := { w with wm := Wm.tick w.wm false now }
       obs := obs ++ [[]]
+    | ["sleep"] => obs := obs ++ [[]]
+    | ["itick"] =>
+      -- a ticker update that finds the source idle (hook): the wall clock strictly increases from one idle tick to the next
+      w := { w with wm := Wm.tick w.wm true (now + Int.ofNat idleTicks) }
+      evs := evs ++ [SessSpec.Ev.idle (now + Int.ofNat idleTicks)]
+      mops := mops ++ [Session.Op.tick true (now + Int.ofNat idleTicks)]
+      idleTicks := idleTicks + 1
+      unless tags.contains "idle-tick-advances-watermark" do tags := "idle-tick-advances-watermark" :: tags
+      obs := obs ++ [[]]
+    | ["ntick"] =>
+      -- natural ticker update: the harness measured whether IDLETIMEOUT had elapsed since the last Add (see Driver/Win.lean)
+      let flag := match implObs with | ["tickflag", f] :: _ => f | _ => "b"
+      if flag == "i" || flag == "ai" then
+        w := { w with wm := Wm.tick w.wm true (now + Int.ofNat idleTicks) }
+        evs := evs ++ [SessSpec.Ev.idle (now + Int.ofNat idleTicks)]
+        mops := mops ++ [Session.Op.tick true (now + Int.ofNat idleTicks)]
+        idleTicks := idleTicks + 1
+        unless tags.contains "idle-tick-advances-watermark" do tags := "idle-tick-advances-watermark" :: tags
+      else
+        w := { w with wm := Wm.tick w.wm false now }
+      obs := obs ++ [[["tickflag", flag]]]
     | ["trigger"] =>
       -- manual flush: every open session as it stands; the oracle waives the watermark clause for these deliveries
       let (w', es) := flushAll w
